@@ -762,6 +762,12 @@ func installedCaps(c *core.Ctx, m *jsonModel, s *core.Sink) []int64 {
 							s.Bad(fmt.Sprintf("%s: store to cap", core.FName(f)), c.Pos(x.Pos()), "the recursion cap is overwritten after construction")
 						}
 					}
+					// whole-struct overwrite (*p = parserState{...}) of an existing state
+					if m.isState(x.Addr.Type()) {
+						if _, isAlloc := x.Addr.(*ssa.Alloc); !isAlloc {
+							s.Bad(fmt.Sprintf("%s: scanner state overwritten wholesale", core.FName(f)), c.Pos(x.Pos()), "an existing (pooled) scanner state is overwritten as a whole: the recursion cap installed by the pool constructor is lost and the guard's cap==0 escape disables the depth limit for later detections")
+						}
+					}
 				}
 			}
 		}
@@ -799,3 +805,76 @@ func findCycle(adj map[*ssa.Function][]*ssa.Function) string {
 	}
 	return cyc
 }
+
+
+// R08.3 (structural part): provenance of the scanner entry's results.
+var ruleParseResults = &core.Rule{ID: "R08.3", Min: 4,
+	Doc: "the scanner entry reports the scanner's own state: result 0 is the top-level scanner result (or 0 under the failure flag), results 1.. are loads of fields of the pooled state, unmodified; the inspected-bytes field is only ever reset to 0 or incremented by 1",
+	Run: func(c *core.Ctx, s *core.Sink) {
+		m := getJSON(c)
+		f := m.parse
+		for _, r := range core.Returns(f) {
+			for i := range r.Results {
+				key := fmt.Sprintf("%s: result #%d of %s", f.Name(), i, returnOrdinal(r))
+				v := spilled(r, i)
+				if i == 0 {
+					ok := v == ssa.Value(m.entry)
+					if ph, isPhi := v.(*ssa.Phi); isPhi {
+						ok = true
+						for _, e := range ph.Edges {
+							if e != ssa.Value(m.entry) && !core.IsConstInt(e, 0) {
+								ok = false
+							}
+						}
+					}
+					s.Check(ok, key, c.Pos(r.Pos()), "top-level scanner result or 0", "the parsed length reported by the entry is not the scanner's own result")
+					continue
+				}
+				base, fld, isLoad := core.LoadOfField(v)
+				okBase := isLoad && m.isState(base.Type())
+				s.Check(okBase, key, c.Pos(r.Pos()), "load of state field "+m.fieldName(fld), "a result of the scanner entry is computed rather than read from the scanner state: the inspected count / first token / query verdict no longer reflect what the scanner did")
+			}
+		}
+		// inspected-bytes field: the int field returned as result 1
+		ibF := -1
+		for _, r := range core.Returns(f) {
+			if len(r.Results) > 1 {
+				if _, fld, ok := core.LoadOfField(spilled(r, 1)); ok {
+					ibF = fld
+				}
+			}
+		}
+		if ibF < 0 {
+			return
+		}
+		n := 0
+		for _, g := range c.SrcFuncs() {
+			for _, b := range g.Blocks {
+				for _, in := range b.Instrs {
+					st, ok := in.(*ssa.Store)
+					if !ok {
+						continue
+					}
+					fa, ok := st.Addr.(*ssa.FieldAddr)
+					if !ok || fa.Field != ibF || !m.isState(fa.X.Type()) {
+						continue
+					}
+					if _, isAlloc := fa.X.(*ssa.Alloc); isAlloc {
+						continue
+					}
+					n++
+					key := fmt.Sprintf("%s: store #%d to %s", core.FName(g), n, m.fieldName(ibF))
+					okInc := false
+					if bo, ok := st.Val.(*ssa.BinOp); ok && bo.Op == token.ADD && core.IsConstInt(bo.Y, 1) {
+						if b2, f2, ok := core.LoadOfField(bo.X); ok && f2 == ibF && b2 == fa.X {
+							okInc = true
+						}
+					}
+					if core.IsConstInt(st.Val, 0) && g == m.reset {
+						okInc = true
+					}
+					s.Check(okInc, key, c.Pos(st.Pos()), "+1 per inspected byte (or reset to 0)", "the inspected-bytes counter is changed other than by +1 per byte looked at")
+				}
+			}
+		}
+	}}
